@@ -134,7 +134,7 @@ void token_pair_mate(token * a, token * b) {
 
 #ifdef MMD6_VERIF
 /// Verification hook: units of work done by the pair matcher (stack probes and opener-type probes)
-unsigned long verif_pair_steps = 0;
+__thread unsigned long verif_pair_steps = 0;	// per thread: conversions on different threads must not share it
 #define VERIF_PAIR_STEP() (verif_pair_steps++)
 #else
 #define VERIF_PAIR_STEP()
